@@ -87,6 +87,8 @@ class Base:
             for k, s in enumerate(self.shapes):
                 self.q[f"ix{k}"] = np.asarray(a.intersects(s))
         self.scalars = [a[i] for i in range(len(a))]
+        if st == "int32" and not long:
+            a.build_sindex(page_size=2)        # the source carries a built index: whatever a derived array inherits must fit ITS rows
 
     def sel(self, name, ids):
         q = self.q[name]
@@ -374,6 +376,18 @@ def check_state(col, base, arr, ids, hist):
         if not eqf(got, want):
             col.violation(f"{base.kind}.{name}", case,
                           f"{name} on derived array {got.tolist()} != selection of base {want.tolist()} after {hist[-3:]}", op=op)
+    # a selection made through cx (it goes through a spatial index when the array carries one)
+    try:
+        for k in (2, 5):
+            b = BOXES[k]
+            col.count("evaluations")
+            sel = arr.cx[b[0]:b[2], b[1]:b[3]]
+            mask = np.asarray(base.sel(f"ib{k}", ids), dtype=bool)
+            want_py = [base.py[i] for i, m in zip([base.miss if i is None else i for i in ids], mask) if m]
+            if sel.data.to_pylist() != want_py:
+                col.violation(f"{base.kind}.cx", case, f"cx[{b}] on the derived array selects {sel.data.to_pylist()} expected {want_py} after {hist[-3:]}", op=op)
+    except Exception as ex:
+        col.violation(f"{base.kind}.cx.raises", case, f"{type(ex).__name__}: {str(ex)[:200]} after {hist[-3:]}", op=op)
     # total bounds from the model
     try:
         tb = np.asarray(arr.total_bounds, dtype=float)
